@@ -16,12 +16,17 @@ for f in sorted(glob.glob("evidence/C*.json")):
 out += ["## 11. Seeded changes: which checks catch which", "",
         "Each change was written by an independent sub-agent that was given only the property text and a scratch worktree (nothing from /verif), compiles, passes the existing tests of the "
         "affected crates and fails its own demonstration; each was re-confirmed with `seeded/confirm.sh` in a scratch worktree and is stored under `seeded/<id>/` (patch.diff, demonstration, "
-        "meta.json). To run the checks against one: `git -C /repo apply seeded/<id>/patch.diff; ./check <prop>; git -C /repo checkout -- .`.", "",
-        "| seed | what it needs to manifest | caught by |", "|---|---|---|"]
+        "meta.json). Confirmation scope (recorded per seed in meta.json `confirmation_scope`): for changes in lattices / dfir_pipes / sinktools / dfir_lang / dfir_rs / hydro_deploy_integration I "
+        "re-ran the demonstration without and with the patch *and* the affected crates' existing tests with the patch; for changes in hydro_lang (whose suite takes hours on the shared, "
+        "loaded machine) I re-ran the demonstration both ways and the suite evidence is the authoring agent's log, except C29-2 and C33-1 where I re-ran the whole hydro_lang suite too "
+        "(203/203 passed). `seeded/recheck.py` re-applies every stored patch in a scratch worktree and verifies that the rules listed below still report it. Rules marked in the seed's "
+        "note as added afterwards were missed by the checks as they stood when the seed arrived. To run the checks against one: `git -C /repo apply seeded/<id>/patch.diff; ./check <prop>; "
+        "git -C /repo checkout -- .`.", "",
+        "| seed | what it needs to manifest | caught by | note |", "|---|---|---|---|"]
 for m in sorted(glob.glob("seeded/*/meta.json")):
     j = json.load(open(m))
     sid = os.path.basename(os.path.dirname(m))
-    out.append("| %s (%s) | %s | %s |" % (sid, ", ".join(j["files_changed"]), j["needs_to_manifest"], ", ".join("`%s`" % x for x in j["caught_by"]) if j["caught_by"] else "**missed** — " + j.get("why_missed", "value-level; outside the decided clauses")))
+    out.append("| %s (%s) | %s | %s | %s |" % (sid, ", ".join(j["files_changed"]), j["needs_to_manifest"], ", ".join("`%s`" % x for x in j["caught_by"]) if j["caught_by"] else "**missed** — " + j.get("why_missed", "value-level; outside the decided clauses"), j.get("note", "")))
 out.append("")
 out += ["Side observations reported by the seeding sub-agents on the *unchanged* tree (found by reading, outside the clauses any check decides, therefore neither alarms nor known findings of "
         "this framework; reproductions kept with the seed): (a) `reduce_no_replay` in push placement drops a lone first item that arrives after tick 0 (`was_updated` is only set inside the reduce "
